@@ -1,8 +1,9 @@
 (* C19 at term level: print-then-parse gives the term back, for the canonical terms:
-     atoms           [a-z][A-Za-z0-9_]*
+     atoms           [A-Za-z0-9_] at both ends, [A-Za-z0-9_ ] between, not all digits
+                     (`wide_atom`; the atoms [a-z][A-Za-z0-9_]* are among them)
      integers        64-bit
      variables       $[A-Za-z][A-Za-z0-9_]* with id 0, and the anonymous variable $_
-     complex terms   f(t1, ..., tn), n >= 0, f an atom as above other than join, add, subtract,
+     complex terms   f(t1, ..., tn), n >= 0, f an atom [a-z][A-Za-z0-9_]* other than join, add, subtract,
                      multiply, divide; the ti canonical; the text at most 1000 characters
      lists           [t1, ..., tn], n >= 0, and [t1, ..., tn | $V], n >= 1, well formed in the
                      sense of Spec/SpecLists.v (`elems`), the ti canonical
@@ -16,7 +17,7 @@ From Suiron Require Import Proofs.TermRoundtrip Proofs.TermRoundtripText Proofs.
 Open Scope N_scope.
 
 Inductive canonical : term -> Prop :=
-| can_atom s : simple_atom s = true -> canonical (TAtom s)
+| can_atom s : wide_atom s = true -> canonical (TAtom s)
 | can_int z : i64_range z -> canonical (TInt z)
 | can_var name : simple_var name = true -> canonical (TVar 0 name)
 | can_anon : canonical TAnon
@@ -28,7 +29,9 @@ Inductive canonical : term -> Prop :=
     elems l = Some (ts, None) -> (forall t, In t ts -> canonical t) -> canonical l
 | can_list_tail l ts name :
     elems l = Some (ts, Some (TVar 0 name)) -> ts <> [] -> (forall t, In t ts -> canonical t) ->
-    simple_var name = true -> canonical l.
+    simple_var name = true -> canonical l
+| can_list_anon l ts :
+    elems l = Some (ts, Some TAnon) -> ts <> [] -> (forall t, In t ts -> canonical t) -> canonical l.
 
 (* ---- the list view determines the nodes ---- *)
 Lemma elems_nodes : forall l xs tl, elems l = Some (xs, tl) ->
@@ -86,11 +89,12 @@ Lemma canonical_facts t : canonical t ->
   good (show_term t) /\ is_nil t = false /\ roundtrips t.
 Proof.
   intros H.
-  induction H as [s Hs|z Hz|name Hn| |f ts Hf Hts IH Hlen|l ts He Hts IH|l ts name He Hne Hts IH Hn].
+  induction H as [s Hs|z Hz|name Hn| |f ts Hf Hts IH Hlen|l ts He Hts IH|l ts name He Hne Hts IH Hn
+                  |l ts He Hne Hts IH].
   - (* atom *)
-    split; [apply good_word; now apply simple_atom_word|]. split; [reflexivity|].
+    split; [now apply good_wide_atom|]. split; [reflexivity|].
     intros fuel Hfuel. unfold parse_fuel in Hfuel. destruct fuel as [|fuel]; [lia|].
-    now apply parse_term_show_atom.
+    now apply parse_term_show_wide_atom.
   - (* integer *)
     split; [apply good_word, show_Z_word|]. split; [reflexivity|].
     intros fuel Hfuel. unfold parse_fuel in Hfuel. destruct fuel as [|fuel]; [lia|].
@@ -169,6 +173,28 @@ Proof.
     apply Forall_of_In. intros t Ht. apply (IH t Ht). unfold parse_fuel.
     pose proof (join_length_ge sep_comma (map show_term ts) (show_term t) (in_map show_term ts t Ht)).
     lia.
+  - (* list with the anonymous variable as its tail *)
+    pose proof (elems_nodes l ts _ He) as El. cbv iota in El.
+    pose proof (elems_non_nil l ts _ He) as Hnn. subst l.
+    assert (Hg : Forall (fun t => good (show_term t)) ts).
+    { apply Forall_of_In. intros t Ht. apply (IH t Ht). }
+    assert (Hshow : show_term (list_nodes ts (tail_node TAnon)) =
+                    list_text_bar (map show_term ts) anon_text).
+    { rewrite show_list_tail by (assumption || reflexivity). reflexivity. }
+    split.
+    { rewrite Hshow. apply good_list_bar; [now apply Forall_map_good|].
+      apply good_word, anon_word. }
+    split; [destruct ts; [now elim Hne|reflexivity]|].
+    intros fuel Hfuel. unfold parse_fuel in Hfuel.
+    assert (Hw : (2 + length (join_strs sep_comma (map show_term ts)) <=
+                  length (show_term (list_nodes ts (tail_node TAnon))))%nat).
+    { rewrite Hshow. unfold list_text_bar. cbn [length].
+      rewrite !app_length. cbn [length]. lia. }
+    destruct fuel as [|fuel]; [lia|].
+    apply parse_term_show_list_anon; [exact Hne|exact Hnn|exact Hg|].
+    apply Forall_of_In. intros t Ht. apply (IH t Ht). unfold parse_fuel.
+    pose proof (join_length_ge sep_comma (map show_term ts) (show_term t) (in_map show_term ts t Ht)).
+    lia.
 Qed.
 
 (* print-then-parse gives the term back, with any fuel from parse_fuel on *)
@@ -215,9 +241,19 @@ Proof.
   apply (mll_plain true ts (TVar 0 v)); try reflexivity; [exact Hne|now apply non_nil_canonical].
 Qed.
 
+(* make_linked_list(true, [t1 ... tn, $_]), n >= 1 *)
+Theorem canonical_make_linked_list_anon ts :
+  ts <> [] -> (forall t, In t ts -> canonical t) ->
+  canonical (make_linked_list true (ts ++ [TAnon])).
+Proof.
+  intros Hne H.
+  apply (can_list_anon _ ts); [|exact Hne|exact H].
+  apply (mll_plain true ts TAnon); try reflexivity; [exact Hne|now apply non_nil_canonical].
+Qed.
+
 (* ---- what is outside ---- *)
 (* `[a | $_]`: the anonymous variable as a tail was rejected by the parser until the repair 5e5ae04
-   (found by this proof work); it now reads back.  It is not yet in `canonical`. *)
+   (found by this proof work); it now reads back, and is in `canonical` (can_list_anon). *)
 Example list_anon_tail_reads_back :
   parse_term 10 (show_term (make_linked_list true [TAtom [97]; TAnon])) =
   Ok (POk (make_linked_list true [TAtom [97]; TAnon])).
